@@ -7,6 +7,8 @@ import (
 )
 
 type ChanObj struct {
+	bufVC   []vclock // clock carried by each buffered message (race detection)
+	closeVC vclock
 	buf    []Value
 	cap    int
 	closed bool
@@ -17,12 +19,14 @@ type ChanObj struct {
 
 type waiter struct {
 	g       *Goroutine
+	vc      vclock // clock of a blocked sender's message
 	val     Value
 	caseIdx int
 	sel     *selState
 }
 
 type selState struct {
+	vc   vclock // clock handed over with the value
 	done bool
 	idx  int
 	val  Value
@@ -52,10 +56,14 @@ func (e *Exec) trySend(ch *ChanObj, v Value) bool {
 	if w := liveWaiter(&ch.recvq); w != nil {
 		ch.recvq = ch.recvq[1:]
 		w.sel.done, w.sel.idx, w.sel.val, w.sel.ok = true, w.caseIdx, v, true
+		w.sel.vc = e.sendVC()
 		return true
 	}
 	if len(ch.buf) < ch.cap {
 		ch.buf = append(ch.buf, v)
+		if e.raceOn {
+			ch.bufVC = append(ch.bufVC, e.sendVC())
+		}
 		return true
 	}
 	return false
@@ -69,9 +77,16 @@ func (e *Exec) tryRecv(ch *ChanObj) (Value, bool, bool) {
 	if len(ch.buf) > 0 {
 		v := ch.buf[0]
 		ch.buf = append([]Value(nil), ch.buf[1:]...)
+		if e.raceOn && len(ch.bufVC) > 0 {
+			e.acquireVC(ch.bufVC[0])
+			ch.bufVC = append([]vclock(nil), ch.bufVC[1:]...)
+		}
 		if w := liveWaiter(&ch.sendq); w != nil {
 			ch.sendq = ch.sendq[1:]
 			ch.buf = append(ch.buf, w.val)
+			if e.raceOn {
+				ch.bufVC = append(ch.bufVC, w.vc)
+			}
 			w.sel.done, w.sel.idx = true, w.caseIdx
 		}
 		return v, true, true
@@ -79,9 +94,11 @@ func (e *Exec) tryRecv(ch *ChanObj) (Value, bool, bool) {
 	if w := liveWaiter(&ch.sendq); w != nil {
 		ch.sendq = ch.sendq[1:]
 		w.sel.done, w.sel.idx = true, w.caseIdx
+		e.acquireVC(w.vc)
 		return w.val, true, true
 	}
 	if ch.closed {
+		e.acquireVC(ch.closeVC)
 		return zeroValue(ch.elem), false, true
 	}
 	return nil, false, false
@@ -110,7 +127,7 @@ func (e *Exec) chanSend(g *Goroutine, fr *Frame, in *ssa.Send) {
 		g.why = "send on nil channel"
 		return
 	}
-	ch.sendq = append(ch.sendq, &waiter{g: g, val: v, sel: s})
+	ch.sendq = append(ch.sendq, &waiter{g: g, val: v, sel: s, vc: e.sendVC()})
 	g.blocked = func() bool { return s.done || ch.closed }
 	g.why = "chan send in " + fr.fn.String()
 }
@@ -129,6 +146,7 @@ func (e *Exec) chanRecv(g *Goroutine, fr *Frame, in *ssa.UnOp) {
 		s := g.sel
 		g.sel = nil
 		if s.done {
+			e.acquireVC(s.vc)
 			finish(s.val, s.ok)
 			return
 		}
@@ -169,6 +187,7 @@ func (e *Exec) selectOp(g *Goroutine, fr *Frame, in *ssa.Select) {
 		s := g.sel
 		g.sel = nil
 		if s.done {
+			e.acquireVC(s.vc)
 			finish(s.idx, s.val, s.ok)
 			return
 		}
@@ -205,6 +224,9 @@ func (e *Exec) selectOp(g *Goroutine, fr *Frame, in *ssa.Select) {
 		w := &waiter{g: g, caseIdx: i, sel: s}
 		if st.Dir == types.SendOnly {
 			w.val = e.get(fr, st.Send)
+			if e.raceOn {
+				w.vc = vcCopy(e.gvc(g)) // (the sender's clock moves on when the select completes)
+			}
 			chans[i].sendq = append(chans[i].sendq, w)
 		} else {
 			chans[i].recvq = append(chans[i].recvq, w)
